@@ -89,7 +89,7 @@ var coreRots = map[string][]int{
 	"toerror": {0, 3, 6, 100},
 	"plumb":   {0, 4, 100},
 	"fmap":    allRots100, "fmapstr": {0, 4}, "join": {0, 4, 7},
-	"mem": {0, 1, 2, 3, 4, 5, 6},
+	"mem": {0, 1, 2, 3, 4, 5, 6, 7, 8, 9, 10},
 }
 
 func rotsOf(key string, extra ...int) string { return rotSet(append(append([]int{}, coreRots[key]...), extra...)...) }
@@ -173,13 +173,18 @@ func checkC17(c *core.Ctx) error {
 
 func checkC18(c *core.Ctx) error {
 	runs := []famRun{{"mem", tierConsts(c,
-		map[string]string{"MaxSeq": "3", "MemRots": rotsOf("mem")},
-		map[string]string{"MaxSeq": "4", "MemRots": rotsOf("mem")})}}
+		map[string]string{"MaxSeq": "3", "MaxSeqDep": "2", "MemDeps": "\"few\"", "MemRots": rotsOf("mem")},
+		map[string]string{"MaxSeq": "4", "MaxSeqDep": "2", "MemDeps": "\"all\"", "MemRots": rotsOf("mem")})}}
 	er, err := runEngine(c, runs)
 	if err != nil {
 		return err
 	}
-	evidence(c, er, "TLC enumerates signatures (0..3 parameters x 0..3 results x parameter kind rotation over comparable and non-comparable kinds) and ALL call sequences of the bound length over 3 argument classes x 2 representatives (hash-colliding contents); non-trivial = the sequence repeats a class", func(cs *Case) bool {
+	evidence(c, er, "TLC enumerates signatures (0..3 parameters x 0..3 results x parameter kind rotation over comparable and non-comparable kinds) and ALL call sequences of the bound length over 3 argument classes x 2 representatives (hash-colliding contents, string- and integer-valued) x dependency functions of a re-entrant f (f(c) calls the memoized function on dep(c), nesting depth <= 2); non-trivial = the sequence repeats a class or f re-enters", func(cs *Case) bool {
+		for _, d := range cs.C.Dep {
+			if d != 0 {
+				return true
+			}
+		}
 		seen := map[int]bool{}
 		for _, e := range cs.I.Seq {
 			if seen[e.C] {
